@@ -24,7 +24,8 @@ EXTENDS TufClient, IOUtils
 CONSTANTS LimRoot, LimTs, LimSn, LimTg,   \* the limits the harness configured, in units
           Mode,    \* "strict" | "obs"
           Unit,    \* bytes per length unit used by the harness
-          Chunk    \* bytes per transport chunk used by the harness (0: whole body)
+          Chunk,   \* bytes per transport chunk used by the harness (0: whole body)
+          Slack    \* bytes by which the configured limits exceed Lim* units (byte-exact limit runs)
 VARIABLES l,      \* position in the trace
           tid,    \* id of the trace being read
           ob      \* observation record: [seen, served, bytesBad, gapBad, knownBefore, exp, expRole]
@@ -66,7 +67,7 @@ ResetVars(e) ==
   /\ pc' = "idle" /\ cyc' = 0 /\ shipped' = NoDoc /\ root' = NoDoc /\ cur' = NoCur
   /\ store' = NoCur /\ known' = -1 /\ now' = 0 /\ enforce' = TRUE
   /\ reqs' = <<>> /\ res' = "none" /\ succ' = <<>> /\ maxRoot' = 0 /\ stale' = 0
-  /\ last' = [ev |-> "none", s |-> NoDoc] /\ walk' = <<>> /\ reord' = 0
+  /\ last' = [ev |-> "none", s |-> NoDoc] /\ walk' = <<>> /\ reord' = 0 /\ nread' = 0
   /\ chain' = [i \in DOMAIN e.chain |-> ToDoc(e.chain[i])]
   /\ hist' = <<>> /\ tid' = e.id /\ ob' = NoOb
 
@@ -74,7 +75,7 @@ TReset == IsEv("reset") /\ ResetVars(Rec[l])
 
 \* the harness pulls at most one chunk beyond the bound before the size adapter fails the
 \* stream (with whole-body chunks, Chunk = 0, nothing can be said about a single chunk)
-BytesOK(e, bound) == Chunk = 0 \/ e.pulled <= bound * Unit + Chunk
+BytesOK(e, bound) == Chunk = 0 \/ e.pulled <= bound * Unit + Slack + Chunk
 Bad(e, bound) == IF BytesOK(e, bound) THEN 0 ELSE 1
 
 -----------------------------------------------------------------------------
@@ -123,7 +124,7 @@ TRead == /\ IsEv("read") /\ pc = "loaded" /\ Rec[l].res = ReadRes
          /\ res' = ReadRes
          /\ known' = (IF enforce /\ ReadRes # "SystemTimeSteppedBackward" THEN now ELSE known)
          /\ last' = [ev |-> "read", s |-> NoDoc]
-         /\ UNCHANGED <<pc, cyc, shipped, root, cur, store, now, enforce, reqs, succ, maxRoot, stale, walk, reord, chain, hist, tid, ob>>
+         /\ UNCHANGED <<pc, cyc, shipped, root, cur, store, now, enforce, reqs, succ, maxRoot, stale, walk, reord, nread, chain, hist, tid, ob>>
          /\ (known' = Rec[l].store.known)
          /\ PrintT(<<"VERDICT", ToJson([id |-> tid, l |-> l, mode |-> "strict", res |-> Rec[l].res,
                                         read |-> TRUE, time |-> TRUE])>>)
@@ -157,7 +158,7 @@ OrderOnly(a, b) == /\ (a.ts # b.ts \/ a.sn # b.sn)
                    /\ KeySet(a, "ts") = KeySet(b, "ts") /\ KeySet(a, "sn") = KeySet(b, "sn")
 
 OClock == IsEv("clock") /\ now' = Rec[l].now
-          /\ UNCHANGED <<pc, cyc, shipped, root, cur, store, known, enforce, reqs, res, succ, maxRoot, stale, walk, reord, last, chain, hist, tid, ob>>
+          /\ UNCHANGED <<pc, cyc, shipped, root, cur, store, known, enforce, reqs, res, succ, maxRoot, stale, walk, reord, nread, last, chain, hist, tid, ob>>
 OStart == /\ IsEv("start")
           /\ LET sh == ToDoc(Rec[l].shipped) IN
              /\ shipped' = sh /\ cyc' = cyc + 1 /\ enforce' = Rec[l].enforce
@@ -166,7 +167,7 @@ OStart == /\ IsEv("start")
              /\ ob' = [ob EXCEPT !.seen = {sh}, !.served = <<sh>>, !.bytesBad = 0, !.gapBad = 0,
                                  !.knownBefore = known]
              /\ cur' = NoCur /\ reqs' = <<>> /\ last' = [ev |-> "start", s |-> NoDoc]
-          /\ UNCHANGED <<pc, root, store, known, now, res, succ, walk, reord, chain, hist, tid>>
+          /\ UNCHANGED <<pc, root, store, known, now, res, succ, walk, reord, nread, chain, hist, tid>>
 ObsBound(ev) == CASE ev = "root" -> Limit.root
                   [] ev = "ts" -> Limit.ts
                   [] ev = "sn" -> IF cur.ts.k = "ts" THEN SnBound(cur.ts) ELSE Limit.sn
@@ -190,7 +191,7 @@ OFetch == /\ l <= Len(Rec) /\ Rec[l].ev \in {"root", "ts", "sn", "tg"} /\ l' = l
                 ELSE /\ cur' = [cur EXCEPT ![e.ev] = s]
                      /\ ob' = [ob EXCEPT !.bytesBad = @ + Bad(e, ObsBound(e.ev))]
                      /\ UNCHANGED <<maxRoot, reord>>
-          /\ UNCHANGED <<pc, cyc, shipped, root, store, known, now, enforce, res, succ, stale, walk, chain, hist, tid>>
+          /\ UNCHANGED <<pc, cyc, shipped, root, store, known, now, enforce, res, succ, stale, walk, nread, chain, hist, tid>>
 
 ObsRoot(v) == IF ob.served[ValidPrefix(ob.served, 1)].v = v THEN ob.served[ValidPrefix(ob.served, 1)]
               ELSE IF \E d \in ob.seen : d.v = v THEN CHOOSE d \in ob.seen : d.v = v ELSE NoDoc
@@ -237,7 +238,11 @@ ObsVerdict(e) ==
       okDocs == e.res = "ok" => cur.ts.k = "ts" /\ cur.sn.k = "sn" /\ cur.tg.k = "tg" /\ fr.k = "root"
       rootReqs == SelectSeq(reqs, LAMBDA q : q[1] = "root")
       c14a == ObsC14Applies(e, fr)
-      c14r == e.res \notin {"Older:timestamp", "Older:snapshot", "Older:targets", "MetaMissing"}
+      \* MetaMissing counts against recovery only when it comes from the rollback check of the
+      \* snapshot (3.3.3), i.e. the served snapshot was not stored
+      snStored == cur.sn.k = "sn" /\ JView(e.store.sn) = ViewDoc(cur.sn)
+      c14r == /\ e.res \notin {"Older:timestamp", "Older:snapshot", "Older:targets"}
+              /\ (e.res = "MetaMissing" => snStored \/ cur.ts.k # "ts" \/ cur.ts.pin.v = 0)
       c14clean == Len(succ) > 0 /\ shipped.v = succ[Len(succ)].root /\ stale = succ[Len(succ)].stale
   IN
   [id |-> tid, l |-> l, mode |-> "obs", res |-> e.res, cyc |-> cyc, nsucc |-> Len(succ'),
@@ -282,7 +287,7 @@ ObsVerdict(e) ==
    nreq |-> Len(reqs)]
 
 OEnd == /\ IsEv("end")
-        /\ UNCHANGED <<pc, cyc, shipped, cur, now, enforce, reqs, maxRoot, stale, walk, reord, last, chain, hist, tid>>
+        /\ UNCHANGED <<pc, cyc, shipped, cur, now, enforce, reqs, maxRoot, stale, walk, reord, nread, last, chain, hist, tid>>
         /\ LET e == Rec[l]
                fr == IF e.res = "ok" THEN ObsRoot(e.vers.root) ELSE NoDoc
            IN
@@ -314,7 +319,7 @@ ORead == /\ IsEv("read")
             IN /\ known' = e.store.known
                /\ PrintT(<<"VERDICT", ToJson([id |-> tid, l |-> l, mode |-> "obs", res |-> e.res,
                                               read |-> TRUE, time |-> ok])>>)
-         /\ UNCHANGED <<pc, cyc, shipped, root, cur, store, now, enforce, reqs, res, succ, maxRoot, stale, walk, reord, last, chain, hist, tid, ob>>
+         /\ UNCHANGED <<pc, cyc, shipped, root, cur, store, now, enforce, reqs, res, succ, maxRoot, stale, walk, reord, nread, last, chain, hist, tid, ob>>
 
 ObsNext == TReset \/ OClock \/ OStart \/ OFetch \/ OEnd \/ ORead
 
